@@ -83,6 +83,74 @@ theorem shortcut_sound {s : State} {v0 : Nat} {src dst : HeapId} (hinv : Inv s) 
     (hs : shareable s (some dst.length) p = true) : op.owner <+: dst :=
   shortcut_sound' hinv hh h0 hcs hp hop hs
 
+/-- The same in terms of what the cloner actually tests, `receiver_generation` (`rgenFor`: the
+    generation of `dst` on one ancestor line, the disjoint generation otherwise): whatever
+    `receiver_generation.can_contain_values_from` lets through is owned by `dst` or an ancestor —
+    for EVERY pair of threads, related or not. -/
+theorem shortcut_sound_receiver_generation {s : State} {v0 : Nat} {sameVm : Bool}
+    {src dst : HeapId} (hinv : Inv s) (hh : Homed s)
+    (h0 : ∀ o, s.obj v0 = some o → o.owner <+: src)
+    {p : Nat} {op : Obj} (hp : CopyReach s (rgenFor sameVm src dst) v0 p) (hop : s.obj p = some op)
+    (hs : shareable s (rgenFor sameVm src dst) p = true) : op.owner <+: dst := by
+  rcases rgenFor_cases (sameVm := sameVm) (src := src) (dst := dst) with ⟨hr, hcs⟩ | hr
+  · rw [hr] at hp hs
+    exact shortcut_sound' hinv hh h0 hcs hp hop hs
+  · rw [hr] at hs
+    unfold shareable at hs; simp [hop] at hs
+
+/-- Counter-model for testing against the generation OF THE RECEIVING HEAP instead
+    (`self.gc.generation()`): generations are only depths, so for siblings `[0,0]` → `[0,1]` the
+    test `value.generation <= 2` lets the sender's own cell (object 3 of `cellArr`, owned by
+    `[0,0]`) through although a full clone was demanded (`rgenFor = none`). -/
+def cellArr : State := State.ofList [
+  ⟨[], [0], .thread, [1, 2]⟩,
+  ⟨[0], [0, 0], .thread, [5]⟩,
+  ⟨[0], [0, 1], .thread, []⟩,
+  ⟨[0, 0], [0, 0], .cell, [4]⟩,
+  ⟨[0, 0], [0, 0], .plain, []⟩,
+  ⟨[0, 0], [0, 0], .uarr, [3, 3]⟩ ]
+
+theorem heap_generation_shortcut_fails :
+    rgenFor true [0, 0] [0, 1] = none ∧
+    shareable cellArr (rgenFor true [0, 0] [0, 1]) 3 = false ∧
+    shareable cellArr (some ([0, 1] : HeapId).length) 3 = true ∧
+    (cellArr.obj 3).map (fun o => decide (o.owner <+: [0, 1])) = some false := by
+  decide
+
+/-- The element path of arrays of userdata (`deep_clone_userdata`, value.rs:1666): every occurrence
+    of an element is cloned on its own — here `[r, r]` moved to the sibling arrives as two
+    different cells (8 and 9), both owned by the destination … -/
+theorem deepClone_userdata_array_sharing_fails :
+    (transfer cellArr true [0, 0] [0, 1] false 5).map
+      (fun x => (x.1.obj x.2).map fun o => (o.owner, o.edges)) = some (some ([0, 1], [8, 9])) := by
+  decide
+
+/-- … and when the cell lives in a heap the receiver may share (`r` owned by the parent `[0]`,
+    array built in the child `[0,0]`, moved to the parent) the element path still copies it,
+    whereas the same cell in a record field stays the same cell. -/
+def sharedCellArr : State := State.ofList [
+  ⟨[], [0], .thread, [1, 2]⟩,
+  ⟨[0], [0, 0], .thread, [4, 5]⟩,
+  ⟨[0], [0], .cell, [3]⟩,
+  ⟨[0], [0], .plain, []⟩,
+  ⟨[0, 0], [0, 0], .uarr, [2]⟩,
+  ⟨[0, 0], [0, 0], .plain, [2]⟩ ]
+
+theorem deepClone_userdata_array_ignores_shortcut_fails :
+    (transfer sharedCellArr true [0, 0] [0] false 4).map
+      (fun x => (x.1.obj x.2).map fun o => o.edges) = some (some [7]) ∧
+    (transfer sharedCellArr true [0, 0] [0] false 5).map
+      (fun x => (x.1.obj x.2).map fun o => o.edges) = some (some [2]) := by
+  decide
+
+/-- The repaired rule (elements through the ordinary rule) keeps both. -/
+theorem deepClone_userdata_array_fixed :
+    (transfer cellArr true [0, 0] [0, 1] true 5).map
+      (fun x => (x.1.obj x.2).map fun o => o.edges) = some (some [7, 7]) ∧
+    (transfer sharedCellArr true [0, 0] [0] true 4).map
+      (fun x => (x.1.obj x.2).map fun o => o.edges) = some (some [2]) := by
+  decide
+
 /-- `deep_clone_value` applies the shortcut only when it is sound, and copies everything
     otherwise. -/
 theorem rgenFor_sound (sameVm : Bool) (src dst : HeapId) :
@@ -110,7 +178,7 @@ theorem transfer_survives {s s' : State} {t : HeapId} {r : Nat} (hwf : WF s) (hi
     the statement is false for a cell reached twice). -/
 theorem deepClone_iso {s0 s' : State} {dst thr : HeapId} {rgen : Option Nat} {fixed : Bool}
     {Rel : Nat → Prop} (ctx : CloneCtx s0 dst rgen fixed Rel)
-    (hcell : ∀ v o, Rel v → s0.obj v = some o → shareable s0 rgen v = false → o.kind = .cell →
+    (hcell : ∀ v o, Rel v → s0.obj v = some o → shareable s0 rgen v = false → BypassKind o.kind →
       fixed = true)
     {v0 r : Nat} (hv : Rel v0) (h : deepClone s0 dst thr rgen fixed v0 = some (s', r)) :
     ∃ vis : List (Nat × Nat),
